@@ -24,7 +24,7 @@ SHARDS = {"quick": 8, "thorough": 16}
 DEADLINE = {"quick": 40, "thorough": 400}
 REQUIRED = {
     "tok:pad:ok": 500, "tok:nopad:ok": 500, "tok:pad:rejected-char": 50, "tok:nopad:rejected-char": 50,
-    "toktype:F": 20, "tok:settings-changed-between-calls": 200, "toktype:P": 100, "toktype:C": 100, "toktype:V": 100, "toktype:!": 20, "toktype:=": 20,
+    "toktype:F": 20, "tok:settings-changed-between-calls": 200, "tok:handed-out-tokens-scribbled-on": 100, "toktype:P": 100, "toktype:C": 100, "toktype:V": 100, "toktype:!": 20, "toktype:=": 20,
 }
 
 
@@ -135,6 +135,20 @@ def run(rec, cfg):
                         pass
             flip.functions.pop("abs", None)
             flip._vmon_funcs = {"sgn": "Sgn"}
+        if rng.random() < 0.15:
+            # the tokens handed out by a Tokenizer are the caller's, attributes included: scribbled
+            # on, then the same and other texts are tokenized again (by this and a new instance)
+            for keep in (True, False):
+                try:
+                    got = toks[keep].tokenize(s)
+                    for tk in got:
+                        tk.value = "\u00d7"
+                        tk.type = 0
+                    rec.arm("tok:handed-out-tokens-scribbled-on")
+                    toks[keep].tokenize(s)
+                    Tokenizer(exclude_padding=keep).tokenize("4x * 2 - (y + 1) = [z / 3]^2")
+                except Exception:
+                    pass
         # relational law, directly on what the implementation returned
         if isinstance(outs[True], list) and isinstance(outs[False], list):
             rec.ev()
